@@ -27,13 +27,36 @@ def make_chooser(spec):
     raise ValueError(spec)
 
 
+class HarnessHang(Exception):
+    """a simulated run made no progress for minutes of wall-clock time: the baton was lost inside the harness"""
+
+
+def _on_alarm(signum, frame):
+    raise HarnessHang()
+
+
+def guarded(fn, seconds=240):
+    """run fn() in this (main) thread under a wall-clock watchdog; a run of the simulator takes milliseconds to seconds"""
+    import signal
+
+    old = signal.signal(signal.SIGALRM, _on_alarm)
+    signal.alarm(seconds)
+    try:
+        return fn()
+    finally:
+        signal.alarm(0)
+        signal.signal(signal.SIGALRM, old)
+
+
 def run_one(job):
     from sim.world import World
 
     program, chooser_spec, opts = job
     try:
         w = World(program, make_chooser(chooser_spec), **opts)
-        r = w.run()
+        r = guarded(w.run)
+    except HarnessHang:
+        return {"harness_hang": True, "program": program, "chooser": chooser_spec, "opts": opts}
     except Exception as e:  # harness failure: report, never a verdict
         import traceback
 
@@ -57,7 +80,7 @@ def run_search(job):
     try:
         search = explore.one_preemption_everywhere if bound == 1 else explore.bounded
         args = (max_runs,) if bound == 1 else (bound, max_runs)
-        for res, state in search(lambda ch: World(program, ch, **opts).run(), *args):
+        for res, state in search(lambda ch: guarded(World(program, ch, **opts).run), *args):
             n += 1
             key = json.dumps(res["events"], sort_keys=True)
             if key not in seen:
@@ -65,6 +88,8 @@ def run_search(job):
                 res["chooser"] = ("bounded", bound, res["decisions"])
                 res["opts"] = opts
                 seen[key] = res
+    except HarnessHang:
+        return {"results": list(seen.values()) + [{"harness_hang": True, "program": program, "chooser": ("bounded", bound), "opts": opts}], "runs": n, "exhaustive": False}
     except Exception:  # harness failure: report, never a verdict
         import traceback
 
@@ -112,7 +137,9 @@ def _replay_chunk(job):
     out = []
     for w in words:
         try:
-            out.append(mod.replay(w))
+            out.append(guarded(lambda w=w: mod.replay(w)))
+        except HarnessHang:
+            out.append({"harness_hang": True, "ops": [list(o) for o in w]})
         except Exception:  # harness failure: report, never a verdict
             import traceback
 
@@ -143,6 +170,9 @@ def close_pool():
 def dedupe(results):
     seen = {}
     for r in results:
+        if "harness_hang" in r:
+            seen.setdefault("HANG" + json.dumps(r["program"])[:200] + str(r["chooser"])[:80], r)
+            continue
         if "harness_error" in r:
             seen.setdefault("H" + r["harness_error"][-200:], r)
             continue
